@@ -47,7 +47,9 @@ BIG_CAP = 80          # "no cap" configuration: exact runs that do not cycle nee
 TOL = 1e-9            # DESIGN 5.1: direct linear-algebra outputs
 NEAR_RD = 2500        # reward denominator of the near-tie family: rewards differ by 1/2500 = 4e-4 or 2/2500 = 8e-4
 LARGE_RM = 900        # reward multiplier of the large-magnitude family: costs of -900, -1800, ... per step
-SWEEPS = [(1, 2), (3, 4), (1, 1)]     # discounts a call-history case switches to (mdp.discount_rate changed in place)
+HUGE_RM = 10 ** 7     # huge-magnitude family: rewards of 1e7 .. 3e7 with transition probabilities in thirds / sevenths
+SMALL_RD, SMALL_BASE = 2 ** 18, 256     # small near-tie profile: rewards ~ +-0.001, +-0.002, gaps 2**-18, 2**-17
+SWEEPS = [(1, 2), (3, 4), (1, 1), (0, 1)]     # discounts a call-history case switches to (mdp.discount_rate changed in place)
 ISCLOSE_ATOL, ISCLOSE_RTOL = 1e-8, 1e-5     # np.isclose defaults = the tie window of msdm's improvement steps
 
 REPS = [
@@ -68,6 +70,9 @@ FAMS = [
     dict(GN=9, GD=10, PD=2, rewards=(-2, -1, 0, 1, 2)),
     dict(GN=1, GD=1, PD=2, rewards=(-2, -1, 0, 1, 2, 3)),
     dict(GN=1, GD=2, PD=4, rewards=(-2, -1, 0, 1, 3)),
+    dict(GN=0, GD=1, PD=2, rewards=(-2, -1, 0, 1, 2)),       # discount 0: a legal (fully myopic) discount rate, falsy in Python
+    dict(GN=1, GD=1, PD=4, rewards=(-2, -1, 0, 1, 2, 3)),
+    dict(GN=0, GD=1, PD=4, rewards=(-3, -1, 0, 1, 2)),
 ]
 
 
@@ -82,14 +87,17 @@ def near_tie_case(rng):
             -> the bias-step action values differ by exactly d/RD;
       gain  (undiscounted): `lo` leads to a recurrent state paying r, `hi` to one paying r + d/RD
             -> the gain-step action values differ by d/RD (times the transition probability)."""
-    RD = NEAR_RD
+    # profile "unit": rewards of order 1 over RD = 2500 (gaps 4e-4 / 8e-4, caught by a loose IMPROVEMENT tie test);
+    # profile "small": rewards of order 1e-3 over RD = 2**18 (gaps 2**-18 = 3.8e-6 / 2**-17: below 1e-5 in absolute
+    # terms but 50 times msdm's np.isclose window at that magnitude, caught by a loose policy-EXTRACTION tolerance)
+    RD, B = rng.choice([(NEAR_RD, NEAR_RD), (SMALL_RD, SMALL_BASE)])
     d = rng.choice([1, 1, 2])
     kind = rng.choice(["twin-disc", "twin-disc", "twin-undisc", "gain"])
     if kind == "gain":
         n_abs = rng.choice([0, 0, 1])
         N, K = 3 + n_abs, rng.choice([2, 3])
         lo, hi = rng.sample(range(K), 2)
-        base = rng.choice([-2, -1, 1, 2]) * RD
+        base = rng.choice([-2, -1, 1, 2]) * B
         P = [[[0] * N for _ in range(K)] for _ in range(N)]
         R = [[[0] * N for _ in range(K)] for _ in range(N)]
         for a in range(K):                      # states 1, 2: recurrent singletons paying base, base + d
@@ -103,11 +111,11 @@ def near_tie_case(rng):
             else:
                 P[0][a][tgt] = 2
             for t in range(N):
-                R[0][a][t] = rng.choice([-1, 0, 1]) * RD
+                R[0][a][t] = rng.choice([-1, 0, 1]) * B
         if n_abs:                               # ghost dynamics of the absorbing state
             for a in range(K):
                 P[3][a][rng.randrange(N)] = 2
-                R[3][a] = [rng.choice([-1, 0, 1]) * RD for _ in range(N)]
+                R[3][a] = [rng.choice([-1, 0, 1]) * B for _ in range(N)]
         m = {"N": N, "K": K, "PD": 2, "GN": 1, "GD": 1, "ID": 2, "abs": [0, 0, 0] + [1] * n_abs,
              "avail": [[1] * K for _ in range(N)], "P": P, "R": R, "p0": [2] + [0] * (N - 1)}
         s = 0
@@ -118,7 +126,7 @@ def near_tie_case(rng):
                              K=rng.choice([2, 3]), PD=2, GN=GN, GD=GD, rewards=(-2, -1, 0, 1, 2), ID=2, p_implicit=0.0)
             if gen.ghost_closed(m):
                 break
-        m["R"] = [[[x * RD for x in row] for row in act] for act in m["R"]]
+        m["R"] = [[[x * B for x in row] for row in act] for act in m["R"]]
         s = rng.choice([x for x in range(m["N"]) if not m["abs"][x]])
         lo, hi = rng.sample(range(m["K"]), 2)
         m["avail"][s][lo] = m["avail"][s][hi] = 1
@@ -127,7 +135,7 @@ def near_tie_case(rng):
         m["p0"] = [m["ID"] if x == s else 0 for x in range(m["N"])]
     m["RD"] = RD
     m["CAP"] = BIG_CAP
-    return m, {"s": s, "lo": lo, "hi": hi, "kind": kind, "d": d}
+    return m, {"s": s, "lo": lo, "hi": hi, "kind": kind, "d": d, "profile": "unit" if RD == NEAR_RD else "small"}
 
 
 def lacking_action_case(rng):
@@ -162,6 +170,37 @@ def lacking_action_case(rng):
     return m
 
 
+def huge_case(rng):
+    """Huge-magnitude family: undiscounted, rewards multiplied by RM = 1e7, transition rows with at least two
+    successors and probabilities in thirds (3 states) or sevenths (2 states) - so every computed gain carries ordinary
+    round-off (the spacing of doubles near 1e7 is 2e-9) - mostly without absorbing states (every policy keeps moving
+    for ever), state-action rewards that differ strongly between the actions: the optimum is only reached by
+    improving actions INSIDE the recurrent classes (bias step among exactly gain-tied actions)."""
+    PD = rng.choice([3, 3, 7])
+    n_na = 3 if PD == 3 else 2
+    n_abs = rng.choice([0, 0, 0, 1])
+    N, K = n_na + n_abs, rng.choice([2, 2, 3])
+    P = [[[0] * N for _ in range(K)] for _ in range(N)]
+    R = [[[0] * N for _ in range(K)] for _ in range(N)]
+    avail = [[1] * K for _ in range(N)]
+    for st in range(N):
+        if rng.random() < 0.25:
+            drop = rng.randrange(K)
+            avail[st][drop] = 0 if K > 1 else 1
+        for a in range(K):
+            tg = rng.sample(range(n_na), 2)
+            x = rng.randint(1, PD - 1)
+            P[st][a][tg[0]], P[st][a][tg[1]] = x, PD - x
+            if n_abs and st < n_na and rng.random() < 0.15:       # a small leak into the absorbing state
+                P[st][a][tg[0]] -= 1 if P[st][a][tg[0]] > 1 else 0
+                P[st][a][N - 1] = PD - P[st][a][tg[0]] - P[st][a][tg[1]]
+            r = rng.choice([-1, 0, 1, 2, 3])
+            R[st][a] = [r] * N
+    m = {"N": N, "K": K, "PD": PD, "GN": 1, "GD": 1, "ID": 2, "abs": [0] * n_na + [1] * n_abs, "avail": avail,
+         "P": P, "R": R, "p0": [2] + [0] * (N - 1), "RM": HUGE_RM, "CAP": BIG_CAP}
+    return m
+
+
 def make_cases(rng, n, tier):
     cases = []
     while len(cases) < n:
@@ -180,6 +219,15 @@ def make_cases(rng, n, tier):
             if not rep["explicit_list"] and not gen.ghost_closed(m):
                 rep["explicit_list"] = True
             cases.append({"m": m, "rep": rep, "n_inits": 1, "all_rules": False, "tie": tie})
+            continue
+        if len(cases) % 16 == 5:                # every 16th case: huge rewards (x 1e7), probabilities in thirds / sevenths
+            m = huge_case(rng)
+            if not gen.magnitude_ok(m, QD=3):
+                continue
+            rep = dict(REPS[rng.randrange(len(REPS))])
+            if not rep["explicit_list"] and not gen.ghost_closed(m):
+                rep["explicit_list"] = True
+            cases.append({"m": m, "rep": rep, "n_inits": 2, "all_rules": False})
             continue
         f = FAMS[len(cases) % len(FAMS)]
         large = len(cases) % 8 == 1             # every 8th case: large-magnitude rewards (multiplier RM = 900)
@@ -497,21 +545,31 @@ def run_fn(b, rule, cap, discount):
 # --------------------------------------------------------------------------------------------
 # comparisons
 # --------------------------------------------------------------------------------------------
-def dev(x, exact):
-    """'ok' iff the float equals the exact value at 1e-9 relative (DESIGN 5.1), else 'bad'."""
+def magnitude(mp):
+    """Magnitude of the data the linear-algebra outputs are computed from: largest real reward times the horizon
+    factor (1/(1-discount), resp. the number of states for relative values).  Round-off of a direct solve is
+    relative to THIS, not to the individual output (an exact 0 among values of 1e7 is not computed to 1e-9)."""
+    rmax = max([abs(x) for act in mp["R"] for row in act for x in row] + [0]) * mp.get("RM", 1) / mp.get("RD", 1)
+    g = mp["GN"] / mp["GD"]
+    return max(1.0, rmax * (1 / (1 - g) if g < 1 else mp["N"]))
+
+
+def dev(x, exact, scale=1.0):
+    """'ok' iff the float equals the exact value at 1e-9 relative to max(1, |exact|, magnitude of the data)
+    (DESIGN 5.1: direct linear-algebra outputs), else 'bad'."""
     if exact is None:
         return "ok"
     if isinstance(exact, float):               # +-inf
         return "ok" if x == exact else "bad"
     if not math.isfinite(x):
         return "bad"
-    return "ok" if abs(x - float(exact)) <= TOL * max(1.0, abs(float(exact))) else "bad"
+    return "ok" if abs(x - float(exact)) <= TOL * max(1.0, abs(float(exact)), scale) else "bad"
 
 
-def same(x, exact):
+def same(x, exact, scale=1.0):
     if exact is None:                           # UNAV: -inf in the code's tables
         return x == float("-inf")
-    return dev(x, exact) == "ok"
+    return dev(x, exact, scale) == "ok"
 
 
 def fr(x, rd=1):
@@ -520,7 +578,38 @@ def fr(x, rd=1):
     return v / rd if isinstance(v, F) else v
 
 
-def inside_isclose_window(jr, got, rd):
+NAN_ROW_SIGNATURE = "C16:MultichainPolicyIteration.plan_on:policy-nan-row:roundoff-above-absolute-1e-10"
+
+
+def nan_rows_by_roundoff(o, mrec, scale):
+    """Rows of the returned policy that are NaN exactly because plan_on intersects the maximisers of action_gain and
+    of action_value at an ABSOLUTE tolerance 10**-VALUE_DECIMAL_PRECISION = 1e-10 (rtol = 0): with round-off above
+    1e-10 in those tables the intersection is empty and the row is 0/0.  Recognised from the reported tables: the
+    NaN rows are precisely the rows where that test leaves nothing, and at a tolerance relative to the magnitude of
+    the data the surviving actions are exactly the support of the exact machine.  Returns the rows or None."""
+    if mrec["phase"] != "done" or not mrec.get("sup"):
+        return None
+    rows = []
+    for s, row in enumerate(o["polw"]):
+        isnan = [math.isnan(p) for p in row]
+        if any(isnan) != all(isnan) or any(math.isinf(p) or p < 0 for p in row if not math.isnan(p)):
+            return None
+        gq, bq = o["gq"][s], o["bq"][s]
+        gm, bm = max(gq), max(bq)
+
+        def keep(tol):
+            return {a for a in range(len(row)) if math.isfinite(gq[a]) and math.isfinite(bq[a])
+                    and abs(gq[a] - gm) <= tol and abs(bq[a] - bm) <= tol}
+        if all(isnan) != (not keep(1e-10)):
+            return None
+        if all(isnan):
+            if keep(TOL * scale) != {a - 1 for a in mrec["sup"][s]}:
+                return None
+            rows.append(s)
+    return rows or None
+
+
+def inside_isclose_window(jr, got, rd, scale=1.0):
     """Is a converged run whose result differs from the optimum explained by msdm's OWN tie tolerance?
     Yes iff (a) the reported values are the exact evaluation of the returned policy (1e-9), and (b) the rule the
     policy rests on passes the code's stopping tests with exact numbers: every gain / bias gap computed by the
@@ -529,7 +618,7 @@ def inside_isclose_window(jr, got, rd):
     if jr is None or not jr.get("wellformed") or not jr.get("stop"):
         return False
     for s, x in enumerate(got):
-        if dev(x, fr(jr["pv"][s], rd)) != "ok":
+        if dev(x, fr(jr["pv"][s], rd), scale) != "ok":
             return False
     for st in jr["stop"]:
         for gap, mx in (("ggap", "gmax"), ("bgap", "bmax")):
@@ -556,7 +645,7 @@ def shape_of(orc, mp):
     return base + ("+absorbing" if has_abs else "")
 
 
-def machine_explains(mrec, o, plan, rd=1):
+def machine_explains(mrec, o, plan, rd=1, scale=1.0, skip_support=False):
     """First difference between a machine record and a real run, or None (DRIFT level only)."""
     if "error" in o:
         if mrec["phase"] == "cap" and not mrec["bqdef"] and o["error"] == "UnboundLocalError":
@@ -570,20 +659,24 @@ def machine_explains(mrec, o, plan, rd=1):
         return f"iterations/converged: machine {mrec['its']}/{mrec['conv']} code {o['its']}/{o['conv']}"
     N = len(mrec["g"])
     for s in range(N):
-        if not same(o["gain"][s], fr(mrec["g"][s], rd)):
+        if not same(o["gain"][s], fr(mrec["g"][s], rd), scale):
             return f"gain[{s}]: machine {mrec['g'][s]} code {o['gain'][s]}"
-        if not same(o["val"][s], fr(mrec["h"][s], rd)):
+        if not same(o["val"][s], fr(mrec["h"][s], rd), scale):
             return f"bias[{s}]: machine {mrec['h'][s]} code {o['val'][s]}"
         for a in range(len(mrec["gq"][s])):
-            if not same(o["gq"][s][a], fr(mrec["gq"][s][a], rd)):
+            if not same(o["gq"][s][a], fr(mrec["gq"][s][a], rd), scale):
                 return f"action_gain[{s}][{a}]: machine {mrec['gq'][s][a]} code {o['gq'][s][a]}"
-            if mrec["bqdef"] and not same(o["bq"][s][a], fr(mrec["bq"][s][a], rd)):
+            if mrec["bqdef"] and not same(o["bq"][s][a], fr(mrec["bq"][s][a], rd), scale):
                 return f"action_bias[{s}][{a}]: machine {mrec['bq'][s][a]} code {o['bq'][s][a]}"
     if plan:
-        if mrec["phase"] == "done":
+        if mrec["phase"] == "done" and not skip_support:
             for s in range(N):
                 sup = {a for a, p in enumerate(o["polw"][s]) if p > 0}
-                if sup != {a - 1 for a in mrec["sup"][s]}:
+                msup = {a - 1 for a in mrec["sup"][s]}
+                # the code tests ties at an ABSOLUTE 1e-10; once the data are of magnitude >= 1e3 the round-off of the
+                # tables can exceed that, and which of the exactly tied maximisers survive is noise: any non-empty
+                # subset of the exact support is then explained
+                if sup != msup and not (scale >= 1e3 and sup and sup <= msup):
                     return f"policy support[{s}]: machine {mrec['sup'][s]} code {sorted(x + 1 for x in sup)}"
     elif mrec["pol"] != o["pol"]:
         return f"final rule: machine {mrec['pol']} code {o['pol']}"
@@ -653,7 +746,7 @@ def judge_cases(ctx, cases, *, tamper_build=None, tamper_real=None, steps=True):
             if lg is None:
                 ctx.count("lp_unsolved")
             else:
-                if any(abs(lg[s] / rd - float(exact[s])) > 1e-6 for s in range(mp["N"])):
+                if any(abs(lg[s] - float(raw[s])) > 1e-6 * max(1.0, abs(float(raw[s]))) for s in range(mp["N"])):
                     raise TLCFailure(f"TLA+ gain oracle and the multichain LP disagree on case {i}: {exact} vs {lg}")
                 ctx.count("oracle_crosschecks_multichain_lp")
         # ---- real executions
@@ -727,8 +820,16 @@ def judge_cases(ctx, cases, *, tamper_build=None, tamper_real=None, steps=True):
 def judge_one(ctx, jby, steps, i, c, b, mp, role, orc, exact, myruns, outs):
     N, K = mp["N"], mp["K"]
     rd = F(orc["rd"], orc["rm"])
+    scale = magnitude(mp)
+    # At magnitude >= 1e6 the ABSOLUTE tolerances inside msdm (np.isclose atol 1e-8 in the improvement steps) are
+    # below the round-off of its own tables, so which exactly tied action it keeps / whether it ping-pongs on noise
+    # is not a function of the exact model: the implementation-shaped comparisons (iterations, visited rules, step
+    # replay, UnboundLocalError at an exhausted cap) are counted there, not reported; every clause of the statement
+    # is still judged on every converged run.
+    noisy = scale >= 1e6
     disc = orc["disc"]
-    shape = shape_of(orc, mp) + ("+near-tie-rewards" if c.get("tie") else "") + ("+large-rewards" if mp["RM"] != 1 else "")
+    shape = shape_of(orc, mp) + (("+near-tie-rewards" if c["tie"].get("profile") != "small" else "+small-near-tie-rewards") if c.get("tie") else "") \
+        + ("+large-rewards" if mp["RM"] == LARGE_RM else "+huge-rewards" if mp["RM"] != 1 else "") + ("+discount0" if mp["GN"] == 0 else "")
     if role == "sweep":
         ctx.count("call_history:second_plan_on_after_discount_rate_changed_in_place")
     default = tuple(min(j + 1 for j in range(K) if mp["avail"][s][j]) for s in range(N))
@@ -740,7 +841,10 @@ def judge_one(ctx, jby, steps, i, c, b, mp, role, orc, exact, myruns, outs):
         plan = key == "plan"
         p0 = default if plan else key
         mrecs = myruns[p0]
-        whys = [machine_explains(r, o, plan, rd) for r in mrecs]
+        nanrows = None
+        if plan and o.get("rows_ok") is False:
+            nanrows = next((x for x in (nan_rows_by_roundoff(o, r, scale) for r in mrecs) if x), None)
+        whys = [machine_explains(r, o, plan, rd, scale, skip_support=bool(nanrows)) for r in mrecs]
         k_ok = next((k for k, w in enumerate(whys) if w is None), 0)
         mrec = mrecs[k_ok]                    # the behaviour that explains the run (else the first one)
         predicts_unbound = any(r["phase"] == "cap" and not r["bqdef"] for r in mrecs)
@@ -762,6 +866,8 @@ def judge_one(ctx, jby, steps, i, c, b, mp, role, orc, exact, myruns, outs):
         if "error" in o:
             if predicts_unbound and o["error"] == "UnboundLocalError":
                 ctx.count("cap_before_first_bias_step_raises_UnboundLocalError(explained by the machine)")
+            elif noisy and o["error"] == "UnboundLocalError":
+                ctx.count("huge-magnitude: cap exhausted on round-off ping-pong (UnboundLocalError, not judged)")
             elif all(r["phase"] == "done" for r in mrecs):
                 fail(f"raises-{o['error']}", f"raised {o['error']}: {o['msg']} where the exact machine stops after {mrec['its']} iterations")
             else:
@@ -770,7 +876,9 @@ def judge_one(ctx, jby, steps, i, c, b, mp, role, orc, exact, myruns, outs):
             continue
         # ---- DRIFT: does the machine explain the run?
         why = whys[k_ok]
-        if why is not None:
+        if why is not None and noisy:
+            ctx.count("huge-magnitude: trajectory differs from the exact machine (round-off, not reported)")
+        elif why is not None:
             ctx.drift("machine", {"case": digest(c), "run": tag, "why": why})
         if not o["conv"]:
             ctx.count("runs_not_converged(counted, not judged)")
@@ -792,13 +900,13 @@ def judge_one(ctx, jby, steps, i, c, b, mp, role, orc, exact, myruns, outs):
         def window():
             nonlocal excused
             if excused is None:
-                excused = inside_isclose_window(jr, got, rd)
+                excused = inside_isclose_window(jr, got, rd, scale)
                 if excused:
                     ctx.drift("tie-window", {"case": digest(c), "run": tag, "got": got, "optimum": [str(x) for x in exact]})
             return excused
 
         for s in range(N):
-            if dev(got[s], exact[s]) == "bad":
+            if dev(got[s], exact[s], scale) == "bad":
                 run_ok = False
                 if not window():
                     fail(clause, f"{clause}[{s}] = {got[s]!r} but the optimum is {exact[s]} = {float(exact[s])!r} (converged after {o['its']} iterations)",
@@ -806,7 +914,17 @@ def judge_one(ctx, jby, steps, i, c, b, mp, role, orc, exact, myruns, outs):
                 break
         # ---- clauses on the returned policy
         if plan:
-            if o.get("rows_ok") is False:
+            if o.get("rows_ok") is False and nanrows:
+                # genuine msdm defect with its own signature: converged, values / gains right, but the policy rows
+                # `nanrows` are 0/0 because the absolute 1e-10 tie test of the policy extraction is below the
+                # round-off of tables of this magnitude
+                case_ok = False
+                run_ok = False
+                ctx.violation(NAN_ROW_SIGNATURE,
+                              f"{site} ({shape}): converged, but policy rows {nanrows} are NaN: maximisers of action_gain and "
+                              f"action_value intersected at absolute 1e-10 are empty (round-off of tables of magnitude {scale:.3g})",
+                              {"case": c, "unit": role or "first", "run": "plan", "clause": "policy-nan-row"})
+            elif o.get("rows_ok") is False:
                 fail("policy-support", f"a policy row is not a probability distribution: {o['polw']}")
                 run_ok = False
             elif o.get("rows_ok") is None:
@@ -835,12 +953,12 @@ def judge_one(ctx, jby, steps, i, c, b, mp, role, orc, exact, myruns, outs):
         if plan:
             einit = fr(orc["init"], rd)
             if disc:
-                if dev(o["init_value"], einit) == "bad":
+                if dev(o["init_value"], einit, scale) == "bad":
                     run_ok = False
                     if not window():
                         fail("initial_value", f"initial_value = {o['init_value']!r}, optimal value of the initial distribution is {einit}")
             else:
-                if dev(o["init_gain"], einit) == "bad":
+                if dev(o["init_gain"], einit, scale) == "bad":
                     run_ok = False
                     if not window():
                         fail("initial_gain", f"initial_gain = {o['init_gain']!r}, optimal gain of the initial distribution is {einit}")
@@ -848,7 +966,7 @@ def judge_one(ctx, jby, steps, i, c, b, mp, role, orc, exact, myruns, outs):
             ctx.validated += 1
 
     # ---- step replay: one real loop iteration from every rule on every machine behaviour
-    if steps:
+    if steps and not noisy:
         succ, stops = {}, {}
         for recs in myruns.values():
             for mrec in recs:
@@ -864,7 +982,7 @@ def judge_one(ctx, jby, steps, i, c, b, mp, role, orc, exact, myruns, outs):
             if frm in stops:
                 mrec = stops[frm]
                 okstep = "error" not in o and tuple(o["pol"]) == frm and all(
-                    same(o["gain"][s], fr(mrec["g"][s], rd)) and same(o["val"][s], fr(mrec["h"][s], rd)) for s in range(N))
+                    same(o["gain"][s], fr(mrec["g"][s], rd), scale) and same(o["val"][s], fr(mrec["h"][s], rd), scale) for s in range(N))
                 ctx.count("step_replay:stop")
                 expected = "stop"
             else:
@@ -902,6 +1020,8 @@ def run(ctx):
                 "costs, some non-absorbing state lacking an action; half of them built around an initial state that lacks an action and "
                 "whose available actions lead into a closed set costing 900-2700 per step); 30% of the regular cases are call histories (same planner and "
                 "MDP objects, mdp.discount_rate changed in place to another of {1/2,3/4,1}, second result judged like a fresh one); "
+                "every 16th case huge rewards (x 1e7) with probabilities in thirds / sevenths; discount 0 is one of the discounts (families and "
+                "in-place sweeps); near-tie profiles: rewards of order 1 (gaps 4e-4) and of order 1e-3 (gaps 2**-18); "
                 "one planner object per max_iterations is reused across all MDP objects of a chunk; non-trivial = converged run on an instance with >=2 non-absorbing "
                 "listed states on which at least two deterministic policies have different exact value (gain) vectors")
     ctx.assumptions = [
